@@ -12,6 +12,8 @@ import AdfObdd.StreamFull
                               = found|notfound t=<T> len=<table length afterwards>
                               ~ prefix=<0|1> foundiff=<0|1>   mirror is a prefix of the producer's
                                                              table / answer ↔ handle present
+    sdroprecv                 the final receiver (its store and channel end) is dropped; the relay must keep
+                              mirroring; `spoll` is a bad request afterwards, `sdump` shows `V gone`, `recveq=-`
     sjoin                     = hist <all issued handles>
     sdump                     = P <table> R <table> V <table>
                               ~ drained=<0|1> relayeq=<0|1> recveq=<0|1>
@@ -23,6 +25,8 @@ open StreamF
 structure StreamSt where
   p : PSys := PSys.init
   bad : Bool := false
+  /-- `sdroprecv`: the final receiver (store and channel end) was dropped; the relay keeps mirroring -/
+  recvGone : Bool := false
 
 def resolveTarget (w : String) (len : Nat) : Option Nat :=
   if w.startsWith "+" then (w.drop 1).toString.toNat?.map (len + ·)
@@ -56,7 +60,9 @@ def streamStep (st : StreamSt) (l : String) (ws : List String) : Option (List St
       some ([l, pollLine (r.2 == some true) t s.relay.length,
              monitorLine s.relay s.prod s.k1 t (r.2 == some true)], { st with p := r.1 })
     | none => some ([l, "= bad-request", "~ bad-request"], st)
+  | ["sdroprecv"] => some ([l], { st with recvGone := true })
   | ["spoll", t] =>
+    if st.recvGone then some ([l, "= bad-request", "~ bad-request"], st) else
     match resolveTarget t st.p.sys.recv.length with
     | some t =>
       let r := pstep st.p (.ev (.recvPoll t))
@@ -78,9 +84,11 @@ def streamStep (st : StreamSt) (l : String) (ws : List String) : Option (List St
   | ["sdump"] =>
     if st.bad then some ([l, "= bad-request", "~ bad-request"], st) else
     let s := st.p.sys
-    let drained := s.pend.isEmpty && s.q1.isEmpty && s.q2.isEmpty
-    some ([l, s!"= P {dumpTable st.p.st.nodes} R {dumpTable s.relay.toArray} V {dumpTable s.recv.toArray}",
-           s!"~ drained={boolBit drained} relayeq={boolBit (decide (s.relay = st.p.st.nodes.toList))} recveq={boolBit (decide (s.recv = st.p.st.nodes.toList))}"], st)
+    let drained := s.pend.isEmpty && s.q1.isEmpty && (st.recvGone || s.q2.isEmpty)
+    let v := if st.recvGone then "gone" else dumpTable s.recv.toArray
+    let recveq := if st.recvGone then "-" else boolBit (decide (s.recv = st.p.st.nodes.toList))
+    some ([l, s!"= P {dumpTable st.p.st.nodes} R {dumpTable s.relay.toArray} V {v}",
+           s!"~ drained={boolBit drained} relayeq={boolBit (decide (s.relay = st.p.st.nodes.toList))} recveq={recveq}"], st)
   | ["ssoak", _seed, prog] =>
     -- the whole program on a fresh producer; after draining all three tables are this one
     let ops := (splitOnNE prog ";").map (fun o => o.splitOn ",")
